@@ -261,20 +261,21 @@ func (d *Device) handleABSEvent(ie *input.InputEvent) {
 
 		switch {
 		case value <= -0.5:
+			// the side that was left goes off first: both directions never sound together, not even between two messages
+			d.AnalogNoteOff(identifier, ie)
 			_, ok := d.analogNoteTracker[identifierNeg]
 			if !ok && analog.Bidirectional {
 				d.AnalogNoteOn(identifierNeg, analog.NoteNeg, analog.ChannelOffsetNeg, ie)
 			}
-			d.AnalogNoteOff(identifier, ie)
 		case value > -0.49 && value < 0.49:
 			d.AnalogNoteOff(identifier, ie)
 			d.AnalogNoteOff(identifierNeg, ie)
 		case value >= 0.5:
+			d.AnalogNoteOff(identifierNeg, ie)
 			_, ok := d.analogNoteTracker[identifier]
 			if !ok {
 				d.AnalogNoteOn(identifier, analog.Note, analog.ChannelOffset, ie)
 			}
-			d.AnalogNoteOff(identifierNeg, ie)
 		case value >= 0.49:
 			// between 49 % and half travel the positive note keeps its state,
 			// but a stick that jumped here from the negative side has certainly left it
